@@ -92,13 +92,16 @@ def verify_function(eng, qualname):
             # vacuity canary: the hypotheses accumulated on (at least one) return path must be satisfiable
             eng.oblige(s, "cover:return", 'cover', z3.BoolVal(False), fdef, expect_sat=True)
             for exc, cond in c.raises.items():
+                if cond is None:        # may raise; the exact condition is not part of the contract
+                    continue
                 t = eval_bool(eng, cond, f.entry_env, s_with_heap(s, f.entry_heap))
                 eng.oblige(s, "xpost:returns-only-if-not:%s" % exc, 'xpost', z3.Not(t), fdef)
         elif o[0] == 'raise':
             exc = o[1]
             if exc in c.raises:
-                t = eval_bool(eng, c.raises[exc], f.entry_env, s_with_heap(s, f.entry_heap))
-                eng.oblige(s, "xpost:%s:only-when" % exc, 'xpost', t, fdef)
+                if c.raises[exc] is not None:
+                    t = eval_bool(eng, c.raises[exc], f.entry_env, s_with_heap(s, f.entry_heap))
+                    eng.oblige(s, "xpost:%s:only-when" % exc, 'xpost', t, fdef)
                 for label, clause in c.labelled(c.ghost.get('xensures', {}).get(exc, []), 'xens'):
                     env = dict(f.entry_env)
                     t2 = eval_bool(eng, clause, env, s, old=old)
